@@ -61,7 +61,7 @@ SetMark == /\ out' = <<"mark", 0, 0>>
                 ELSE mark' = cpos /\ UNCHANGED <<base, clen, cpos>>
            /\ UNCHANGED rawPos
 
-Next == (\E n \in Reads : Read(n) \/ Peek(n)) \/ (\E d \in 1..Size : SeekBack(d)) \/ SetMark
+Next == (\E n \in Reads : Read(n)) \/ (\E n \in Reads : Peek(n)) \/ (\E d \in 1..Size : SeekBack(d)) \/ SetMark
 Spec == Init /\ [][Next]_vars
 
 (* bookkeeping invariant (also the inductive invariant given to Apalache for unbounded sizes) *)
